@@ -124,3 +124,65 @@ Qed.
 
 Print Assumptions footer_roundtrip.
 Print Assumptions crc_update_app.
+
+(* ---- the CRC always fits 32 bits, so the footer theorem needs no side condition ---- *)
+Lemma lxor_lt_pow2 a b n : a < 2 ^ n -> b < 2 ^ n -> N.lxor a b < 2 ^ n.
+Proof.
+  intros Ha Hb.
+  destruct (N.eq_dec (N.lxor a b) 0) as [->|Hne]; [apply N.neq_0_lt_0; apply N.pow_nonzero; lia|].
+  assert (Hn: 0 < n).
+  { destruct (N.eq_dec n 0) as [->|]; [|lia]. change (2 ^ 0) with 1 in *.
+    assert (a = 0) by lia. assert (b = 0) by lia. subst. cbn in Hne. congruence. }
+  apply N.log2_lt_pow2; [lia|].
+  eapply N.le_lt_trans; [apply N.log2_lxor|].
+  apply N.max_lub_lt.
+  - destruct (N.eq_dec a 0) as [->|Ha0]; [exact Hn|]. apply N.log2_lt_pow2; lia.
+  - destruct (N.eq_dec b 0) as [->|Hb0]; [exact Hn|]. apply N.log2_lt_pow2; lia.
+Qed.
+
+Lemma shiftr1_lt c : c < 2 ^ 32 -> N.shiftr c 1 < 2 ^ 32.
+Proof. intros H. rewrite N.shiftr_div_pow2. change (2 ^ 1) with 2. apply N.div_lt_upper_bound; lia. Qed.
+
+Lemma crc_bits_lt k : forall c, c < 2 ^ 32 -> crc_bits k c < 2 ^ 32.
+Proof.
+  induction k as [|k IH]; intros c Hc; cbn [crc_bits]; [exact Hc|]. apply IH.
+  destruct (N.odd c); [|now apply shiftr1_lt].
+  apply lxor_lt_pow2; [now apply shiftr1_lt|reflexivity].
+Qed.
+
+Lemma crc_raw_lt bs : Forall (fun b => b < 256) bs -> forall c, c < 2 ^ 32 -> crc_raw c bs < 2 ^ 32.
+Proof.
+  induction 1 as [|b bs Hb _ IH]; intros c Hc; cbn [crc_raw fold_left]; [exact Hc|].
+  apply IH. unfold crc_byte. apply crc_bits_lt. apply lxor_lt_pow2; [exact Hc|].
+  eapply N.lt_trans; [exact Hb|reflexivity].
+Qed.
+
+Lemma crc_update_lt crc bs : Forall (fun b => b < 256) bs -> crc < 2 ^ 32 -> crc_update crc bs < 2 ^ 32.
+Proof.
+  intros Hb Hc. unfold crc_update. apply lxor_lt_pow2; [|reflexivity].
+  apply crc_raw_lt; [exact Hb|]. apply lxor_lt_pow2; [exact Hc|reflexivity].
+Qed.
+
+Lemma be_lt256 k : forall n, n < 256 ^ N.of_nat k -> Forall (fun b => b < 256) (be k n).
+Proof.
+  induction k as [|k IH]; intros n Hn; cbn [be]; [constructor|].
+  constructor.
+  - rewrite Nnat.Nat2N.inj_succ, N.pow_succ_r' in Hn. apply N.div_lt_upper_bound; [apply N.pow_nonzero; lia|lia].
+  - apply IH. apply N.mod_lt. apply N.pow_nonzero. lia.
+Qed.
+
+Lemma footer_body_bytes f : wf_footer f -> Forall (fun b => b < 256) (footer_body f).
+Proof.
+  intros (H1 & H2 & H3 & H4 & H5 & H6 & H7). unfold footer_body.
+  repeat (apply Forall_app; split); apply be_lt256; assumption.
+Qed.
+
+(* the footer theorem without the CRC-width side condition, for byte images *)
+Theorem footer_roundtrip_bytes mem f : wf_footer f -> Forall (fun b => b < 256) mem ->
+  parse (persist mem f) = Some (mem, f, crc32 (mem ++ footer_body f)).
+Proof.
+  intros Hw Hm. apply footer_roundtrip; [exact Hw|].
+  change (256 ^ 4) with (2 ^ 32). apply crc_update_lt; [now apply footer_body_bytes|].
+  unfold crc32. apply crc_update_lt; [exact Hm|reflexivity].
+Qed.
+Print Assumptions footer_roundtrip_bytes.
